@@ -15,7 +15,7 @@ from .. import gen, custom, kernels as K, llir, harness
 from ..gen import TYPES, ATYPES, ALL_ARCHS
 
 BOUNDS = ('all 23 x86 architectures of all_x86_architectures + emulated<128>, emulated<256>; 10 element types (+ complex<float>, complex<double>, bool traits); '
-          'make_sized_batch<T,N> for N in {1,2,3,4,8,16,32,64,128}; arch_list::alignment() for the full list and every contiguous sub-list of length <= 3 of a 6-element sample. '
+          'make_sized_batch<T,N> for N in {1,2,3,4,8,16,32,64,128}; arch_list::alignment() for the full list and every ordered sub-list (all permutations) of length <= 3 of a 6-element sample; simd_return_type for every (From, To) pair of the 10 element types and the 4 complex precision pairs. '
           'Outside: NEON/SVE/RVV/WASM register tables (no cross headers in this image).')
 ASSUMPTIONS = ['clang-14 constant-folds the table initialisers faithfully (they are integral constant expressions of the real headers)',
                'the expected register width per architecture (128 for SSE*/FMA3<sse4_2>/FMA4, 256 for AVX*/FMA3<avx*>/AVXVNNI, 512 for AVX512*) is taken from the ISA, not from xsimd']
@@ -56,6 +56,10 @@ template <class T> struct fl_of { using type = void; };
     tbl2('T_isbatch', lambda a, t: '(is_batch<batch<%s, %s>>::value && !is_batch<%s>::value && is_batch_bool<batch_bool<%s, %s>>::value && !is_batch_bool<batch<%s, %s>>::value)' % (t, a, t, t, a, t, a))
     tbl2('T_retsame', lambda a, t: 'std::is_same<simd_return_type<%s, %s, %s>, batch<%s, %s>>::value' % (t, t, a, t, a))
     tbl2('T_boolret', lambda a, t: 'std::is_same<simd_return_type<bool, %s, %s>, batch_bool<%s, %s>>::value' % (t, a, t, a))
+    # simd_return_type<From, To, A> names the batch of the destination type for every (From, To) pair, real and complex, same or different precision
+    L.append('TBL T_retmix[] = {\n%s\n};' % ',\n'.join('  ' + ', '.join('U((std::is_same<simd_return_type<%s, %s, %s>, batch<%s, %s>>::value))' % (t1, t2, a, t2, a) for t1 in T for t2 in T) for a in A))
+    CP = ['float', 'double']
+    L.append('TBL T_cretmix[] = {\n%s\n};' % ',\n'.join('  ' + ', '.join('U((std::is_same<simd_return_type<std::complex<%s>, std::complex<%s>, %s>, batch<std::complex<%s>, %s>>::value && std::is_same<simd_return_type<std::complex<%s>, %s, %s>, batch<std::complex<%s>, %s>>::value))' % (c1, c2, a, c2, a, c1, c2, a, c2, a) for c1 in CP for c2 in CP) for a in A))
     tbl2('T_archtype', lambda a, t: 'std::is_same<typename batch<%s, %s>::arch_type, %s>::value' % (t, a, a))
     L.append('TBL T_csize[] = {\n%s\n};' % ',\n'.join('  U((batch<std::complex<float>, %s>::size)), U((batch<std::complex<double>, %s>::size))' % (a, a) for a in A))
     L.append('TBL T_cret[] = {\n%s\n};' % ',\n'.join('  U((std::is_same<simd_return_type<std::complex<float>, std::complex<float>, %s>, batch<std::complex<float>, %s>>::value)), U((std::is_same<simd_return_type<std::complex<double>, std::complex<double>, %s>, batch<std::complex<double>, %s>>::value))' % (a, a, a, a) for a in A))
@@ -70,8 +74,9 @@ template <class T> struct fl_of { using type = void; };
     # arch_list::alignment() on the whole list and on sub-lists of a sample
     subs = []
     S = [a for a in SAMPLE if a in archs]
+    # ordered sub-lists (every order: the maximum must not depend on where it stands - seed C20-1 returned the first local peak)
     for r in (1, 2, 3):
-        for c in itertools.combinations(S, r): subs.append(c)
+        for c in itertools.permutations(S, r): subs.append(c)
     L.append('TBL T_listalign[] = { U(all_x86_architectures::alignment()), U(supported_architectures::alignment()), U(arch_list<>::alignment()), %s };' %
              ', '.join('U((arch_list<%s>::alignment()))' % ', '.join(cpp_arch(a) for a in c) for c in subs))
     L.append('TBL T_sized[] = {\n%s\n};' % ',\n'.join('  ' + ', '.join('U((size_or0<make_sized_batch_t<%s, %d>>::value))' % (t, n) for n in NS) for t in T))
@@ -104,6 +109,7 @@ def lookup(tab, idx, w=16):
 
 def main(tier, seed):
     S = custom.Session('C20', tier, seed, bounds=BOUNDS, assumptions=ASSUMPTIONS, level='other')
+    S.ground_tables = True      # counterexamples of table obligations are confirmed by evaluating the goal on the constant tables (exact)
     x86 = list(ALL_ARCHS); emu = ['emu128', 'emu256']
     archs = x86 + emu
     NA = len(archs); NX = len(x86); NT = len(ATYPES)
@@ -142,6 +148,9 @@ def main(tier, seed):
     S.prove('simd_return_type<T,T,A> is batch<T,A>', dom, lookup(Tb['T_retsame'], at) == 1)
     S.prove('simd_return_type<bool,T,A> is batch_bool<T,A>', dom, lookup(Tb['T_boolret'], at) == 1)
     S.prove('simd_return_type<complex<T>,complex<T>,A> is batch<complex<T>,A>', [inA, z3.ULT(t, 2)], lookup(Tb['T_cret'], a * 2 + t) == 1)
+    t2 = z3.BitVec('type2', W)
+    S.prove('simd_return_type<From,To,A> is batch<To,A> for every pair of element types', dom + [z3.ULT(t2, NT)], lookup(Tb['T_retmix'], (a * NT + t) * NT + t2) == 1)
+    S.prove('simd_return_type<complex<T1>,complex<T2>,A> and <complex<T1>,T2,A> are batch<complex<T2>,A> (same and different precision)', [inA, z3.ULT(t, 4)], lookup(Tb['T_cretmix'], a * 4 + t) == 1)
     S.prove('batch<T,A>::arch_type is A', dom, lookup(Tb['T_archtype'], at) == 1)
     S.prove('as_integer_t<T>: signed integer of the same width', [inT], lookup(Tb['T_asint'], t) == 1)
     S.prove('as_unsigned_integer_t<T>: unsigned integer of the same width', [inT], lookup(Tb['T_asuint'], t) == 1)
